@@ -355,7 +355,7 @@ func main() {
 	a := wire.ParseArgs()
 	rng := wire.Rng(a.Seed)
 	w := wire.NewWriter("C18", a.Seed, a.Tier)
-	w.Rule = "single-key sweep (exhaustive): every rule key (run-time table + published table) x (every value listed for any key + specials \"\", no, yes, unlisted, No, ... + byte-order neighbours of the key's own listed values [thorough: of all listed values]) x area in {absent, \"\", no, yes, x}, both tag orders alternating, on a closed 4-ring; length sweep 0..7 x closed/open/all-equal x tag sets; pairs (list key x any key) x pass/fail/no values x both orders; random tag sets in 3-6 (or all) orders; irrelevant and near-miss keys inserted; duplicate keys (model only); relations: type values x other tags x positions; the run-time table. distinct = distinct token streams; trivial = none."
+	w.Rule = "single-key sweep (exhaustive): every rule key (run-time table + published table) x (every value listed for any key + specials \"\", no, yes, unlisted, No, ... + byte-order neighbours of the key's own listed values [thorough: of all listed values]) x area in {absent, \"\", no, yes, x}, both tag orders alternating, on a closed 4-ring; length sweep 0..7 x closed/open/all-equal x tag sets; every id sequence over {1,2,3} of length 0..5; pairs (list key x any key) x pass/fail/no values x both orders; random tag sets in 3-6 (or all) orders; irrelevant and near-miss keys inserted; duplicate keys (model only); relations: type values x other tags x positions; the run-time table. distinct = distinct token streams; trivial = none."
 	thorough := a.Tier == "thorough"
 
 	rt := osm.VerifPolyConditions()
@@ -477,6 +477,23 @@ func main() {
 		{1, 2, 3, 4, 5, 6, 7, 8, 9, 1}, {1, 2, 3, 4, 5, 6, 7, 8, 9, 10},
 	} {
 		w.Add(wayCase("ids", ids, osm.Tags{{Key: "building", Value: "yes"}}))
+	}
+
+	// every id sequence over {1,2,3} of length 0..5 (all first/last/length patterns)
+	for l := 0; l <= 5; l++ {
+		total := 1
+		for i := 0; i < l; i++ {
+			total *= 3
+		}
+		for x := 0; x < total; x++ {
+			ids := make([]int64, l)
+			y := x
+			for i := range ids {
+				ids[i] = int64(1 + y%3)
+				y /= 3
+			}
+			w.Add(wayCase("ids-exhaustive", ids, osm.Tags{{Key: "building", Value: "yes"}}))
+		}
 	}
 
 	// 3. pairs of rule keys
